@@ -49,6 +49,16 @@ CHECKS = {
         text="Real decoding loops (scripted decoder in five logit modes incl. ties/huge/flat, tiny real AM) over 19 real environments with a swarm over temperature, tanh clipping, top-k, top-p and decode types; a tap on process_logits checks every step against a float64 reference (normalised, masked => -inf, argmax kept, <= k kept up to ties, nucleus mass >= p, shift invariance by re-running the recorded step, greedy maximiser, sampled action has positive probability); sampler faults (1-3 injected zero-probability draws) must be absorbed by the retry loop within one further clean draw.",
         note="The 'for all real logits' algebra is a pure-function claim; the simulator reaches it only through the values flowing through simulated episodes and under sampler faults (thin for that sub-claim, stated in DESIGN 6). With top-k and top-p both active the nucleus clause is read against the top-k-restricted distribution.",
         tech="deterministic simulation: seeded decoding episodes with process_logits tap + sampler fault injection (bounded-liveness of the retry loop)"),
+    "C11": dict(
+        cat="exploration", ref="5/C11",
+        text="Record/replay of decoding histories: 24 bundled policy x environment pairs (plus the scripted decoder on all 21 environments) in greedy, sampling, multistart, multi-sample and beam modes: (i) a tap on process_logits recomputes, in float64, the masked and normalised step distribution and the returned log-likelihood must be the sum of the log-probs of the actions actually taken, forced multi-start moves and steps flagged by td['mask'] contributing zero; (ii) feeding the returned actions back in evaluate mode (k-fold expanded batch without num_starts, or num_samples) reproduces per-step log-probs, reward and entropy; (iii) PPO's first inner-step probability ratio is 1 and each mini-batch row carries its own (action, old log-prob) pair.",
+        note="MDAM has no evaluate mode (clause (i) only); PolyNet only on slot-preserving replays; MatNet replayed under the same torch seed; top-k/top-p only without forced first moves. Tiny random-weight policies.",
+        tech="deterministic simulation: recorded decoding histories replayed in evaluate mode + float64 reference distribution from a logits tap"),
+    "C12": dict(
+        cat="exploration", ref="5/C12",
+        text="(a) batchify/unbatchify/unbatchify_and_gather on tensors and nested TensorDicts with factor lists (k), (a,s), (r,a,s): row r belongs to instance r mod B, expand-then-inverse is the identity; (b) multi-start / multi-sample rollouts through the real policy loop with the replica-keyed scripted decoder on every environment with a start rule (incl. cross-size environments and OP instances with unreachable customers): forced starts are feasible and pairwise distinct when k feasible starts exist, every row's trajectory equals the solo rollout of instance r mod B with replica r div B, best-of-k returns the instance's own maximum with the actions and log-likelihood of that rollout; (c) POMO / SymNCO shared_step regrouping never mixes instances; (d) real AttentionModel multistart vs solo replication.",
+        note="The reference loop re-derives at most 12 rows per run; FFSP trajectories are not re-derived (machine tables live on the environment).",
+        tech="deterministic simulation: per-row reproducible scripted peer + solo re-derivation of replicated rollouts"),
     "C13": dict(
         cat="exploration", ref="5/C13",
         text="Beam search through the real policy loop (scripted state-keyed scorer, tiny real AM) on fixed- and variable-length environments, widths 2..n, select_best on/off: history check over the tapped step distributions and the strategy's beam_path: kept (parent, action) pairs are the top-w of parent score + step log-prob (near-ties indeterminate), returned sequences are root-to-leaf paths with the log-probs along that path, evaluate-mode replay reproduces them, every beam is a feasible complete solution (reference violations()), beams with distinct forced starts are distinct, select_best returns the instance's maximum.",
